@@ -20,7 +20,7 @@ use std::fmt::Debug;
 
 use ciborium::Value as Cbor;
 use p2panda::operation::Extensions as NodeExtensions;
-use p2panda_core::cbor::decode_cbor;
+use p2panda_core::cbor::{decode_cbor, encode_cbor};
 use p2panda_core::{Extensions, Hash, Header, SigningKey, validate_header};
 use serde::{Deserialize, Serialize};
 use vh_common::{Args, Outcome, Rng, TraceWriter, Value, catch, json, read_ndjson, unknown};
@@ -294,6 +294,42 @@ fn prev_hashes(bytes: &[u8]) -> Vec<Hash> {
 }
 
 // ------------------------------------------------------------------------------------------
+// FailedEncode: an unrelated value whose encoding fails half-way
+
+/// Serialize impl that writes some items and then returns an error (like a struct holding a
+/// `SystemTime` before the UNIX epoch).
+struct FailsHalfWay(u8);
+
+impl Serialize for FailsHalfWay {
+    fn serialize<S: serde::Serializer>(&self, serializer: S) -> Result<S::Ok, S::Error> {
+        use serde::ser::SerializeSeq;
+        let mut seq = serializer.serialize_seq(Some(4))?;
+        seq.serialize_element(&0xdead_beef_u32)?;
+        seq.serialize_element(&vec![self.0; 1 + self.0 as usize % 40])?;
+        Err(serde::ser::Error::custom("this value cannot be encoded"))
+    }
+}
+
+/// The specification's `FailedEncode` step on this thread; it must fail and must not matter.
+fn failed_encode(fails: &mut FailPlan, place: &'static str) {
+    if fails.mask & 1 == 1 {
+        if encode_cbor(&FailsHalfWay(fails.mask as u8)).is_ok() {
+            eprintln!("harness bug: the failing value was encoded");
+            std::process::exit(2);
+        }
+        fails.done.push(place);
+    }
+    fails.mask >>= 1;
+}
+
+/// Seeded choice of the places where a failed encoding is interleaved (one bit per place).
+#[derive(Debug, Clone, Default)]
+struct FailPlan {
+    mask: u64,
+    done: Vec<&'static str>,
+}
+
+// ------------------------------------------------------------------------------------------
 // Observations of one concrete header (all through the public API of p2panda-core)
 
 #[derive(Debug, Clone, Default)]
@@ -321,27 +357,35 @@ struct Obs {
     twin_same_bytes: bool,
     twin_same_id: bool,
     twin_verifies: bool,
+    /// places (next event) before which a failed encoding was interleaved
+    failed_before: Vec<&'static str>,
 }
 
-fn observe<E>(case: Case<E>, decodes: usize) -> Obs
+fn observe<E>(case: Case<E>, decodes: usize, fail_mask: u64) -> Obs
 where
     E: Extensions + PartialEq + Debug,
 {
     let Case { key, mut header, twin_ext } = case;
     let mut obs = Obs::default();
+    let mut fails = FailPlan { mask: fail_mask, done: vec![] };
 
     // Sign: the bytes that get signed are the encoding of the header without signature
     header.signature = None;
+    failed_encode(&mut fails, "Sign");
     let unsigned_bytes = header.to_bytes();
     obs.sign_layout = layout(&unsigned_bytes);
     obs.unsigned_decodes = decode_cbor::<Header<E>, _>(&unsigned_bytes[..]).is_ok();
     // elements of `previous` are named by their position in this very first encoding
     let names = prev_hashes(&unsigned_bytes);
+    failed_encode(&mut fails, "Sign");
     header.sign(&key);
+    failed_encode(&mut fails, "Sign");
     obs.sign_verifies = header.verify();
 
     // Encode
+    failed_encode(&mut fails, "Encode");
     let wire = header.to_bytes();
+    failed_encode(&mut fails, "Encode");
     let id = header.hash();
     obs.wire_layout = layout(&wire);
     obs.wire_prev = prev_order(&wire, &names);
@@ -352,12 +396,16 @@ where
     for _ in 0..decodes {
         let mut d = DecodeObs::default();
         if let Ok(again) = decode_cbor::<Header<E>, _>(&wire[..]) {
+            failed_encode(&mut fails, "Decode");
             let bytes = again.to_bytes();
             d.ok = true;
             d.eq = again == header;
             d.same_bytes = bytes == wire;
+            failed_encode(&mut fails, "Decode");
             d.verifies = again.verify();
+            failed_encode(&mut fails, "Decode");
             d.validates = validate_header(&again).is_ok();
+            failed_encode(&mut fails, "Decode");
             d.same_id = again.hash() == id;
             d.ord = prev_order(&bytes, &names);
         }
@@ -367,14 +415,18 @@ where
     // Twin: an equal value obtained by another route, signed with the same key
     // (Ed25519 signatures are deterministic: equal bytes <=> equal signature)
     let mut twin = Header { extensions: twin_ext, signature: None, ..header.clone() };
+    failed_encode(&mut fails, "Twin");
     twin.sign(&key);
+    failed_encode(&mut fails, "Twin");
     let twin_bytes = twin.to_bytes();
     // equality of the *values* (the signature is a function of the bytes, which is what is tested)
     let twin_equal = Header { signature: None, ..twin.clone() } == Header { signature: None, ..header.clone() };
     obs.twin_ord = prev_order(&twin_bytes, &names);
     obs.twin_same_bytes = twin_equal && twin_bytes == wire;
     obs.twin_same_id = twin_equal && twin.hash() == id;
+    failed_encode(&mut fails, "Twin");
     obs.twin_verifies = twin.verify();
+    obs.failed_before = fails.done;
     if !twin_equal {
         // harness error, not a finding: the twin must be the same value
         eprintln!("harness bug: twin value differs from the original");
@@ -387,10 +439,12 @@ fn observe_shape(shape: &Shape, rng: &mut Rng, decodes: usize) -> Result<Obs, St
     let shape = shape.clone();
     let mut local = rng.clone();
     let r = catch(move || -> Result<Obs, String> {
+        // FailedEncode steps: none for one header in three, else each place with probability 1/4
+        let fail_mask = if local.chance(1, 3) { 0 } else { local.next_u64() & local.next_u64() };
         match shape.kind.as_str() {
-            "zst" => Ok(observe(zst_case(&shape, &mut local), decodes)),
-            "custom" => Ok(observe(custom_case(&shape, &mut local), decodes)),
-            "basic" | "causal" => Ok(observe(node_case(&shape, &mut local)?, decodes)),
+            "zst" => Ok(observe(zst_case(&shape, &mut local), decodes, fail_mask)),
+            "custom" => Ok(observe(custom_case(&shape, &mut local), decodes, fail_mask)),
+            "basic" | "causal" => Ok(observe(node_case(&shape, &mut local)?, decodes, fail_mask)),
             other => Err(format!("unknown extension kind {other}")),
         }
     });
@@ -457,6 +511,7 @@ fn replay(args: &Args) {
                     continue;
                 }
             };
+            out.count_by("failed_encodes", obs.failed_before.len() as u64);
             let prop = if consistent { "C02" } else { MODEL };
             let mut di = 0;
             let mut all_ok = true;
@@ -586,12 +641,23 @@ fn record(args: &Args) {
             }
         };
         trace.event(json!({"ev": "Reset", "run": run, "shape": shape.to_json()}));
+        // the failed encodings that were interleaved, each before the event whose calls it preceded
+        let failed = |trace: &mut TraceWriter, place: &str| {
+            for _ in obs.failed_before.iter().filter(|p| **p == place) {
+                trace.event(json!({"ev": "FailedEncode", "before": place}));
+            }
+        };
+        out.count_by("failed_encodes", obs.failed_before.len() as u64);
+        failed(&mut trace, "Sign");
         trace.event(json!({"ev": "Sign", "layout": obs.sign_layout, "verifies": obs.sign_verifies}));
+        failed(&mut trace, "Encode");
         trace.event(json!({"ev": "Encode", "layout": obs.wire_layout, "prev": obs.wire_prev}));
+        failed(&mut trace, "Decode");
         for d in &obs.decodes {
             trace.event(json!({"ev": "Decode", "ok": d.ok, "eq": d.eq, "ord": d.ord, "same_bytes": d.same_bytes,
                                "verifies": d.verifies, "validates": d.validates, "same_id": d.same_id}));
         }
+        failed(&mut trace, "Twin");
         trace.event(json!({"ev": "Twin", "ord": obs.twin_ord, "same_bytes": obs.twin_same_bytes,
                            "same_id": obs.twin_same_id, "verifies": obs.twin_verifies}));
         if shape.consistent() && obs.decodes.iter().all(|d| d.ok) {
